@@ -2,6 +2,7 @@ CONSTANTS Urls <- UrlsC
           Texts <- TextsC
           Cfgs <- OneCfg
           RebuildOnlyIfChanged = FALSE
+          FirstOfBatch = FALSE
           IdentsAccumulate = TRUE
           ForgetIdentRecord = TRUE
           ConfigRebuilds = TRUE
